@@ -245,14 +245,15 @@ def extras_apply(tools, img, ops, blobdir, bs, extent_fs=True):
             continue
         n = min(free - (a % 4), 600)
         if n < 8: continue
-        c = []; ndirs = max(2, n // 12); left = n - ndirs; names = []
-        for k in range(ndirs): c.append('mkdir z%d_%03d' % (i, k))
-        k = 0
-        while left > 0:
-            dname = 'z%d_%03d' % (i, k % ndirs); nm = '%s/e%04d%s' % (dname, k, 'w' * (40 + b % 150)); c.append('write /dev/null %s' % nm); names.append(nm); left -= 1; k += 1
-        # free every third inode again, and remove whole runs so that some directory blocks end up without a live entry
-        for j, nm in enumerate(names):
-            if j % 3 == 0 or (ndirs <= (j % (ndirs * 6))): c.append('rm %s' % nm)
+        # directories are created in between the files (every 12th inode), so that they receive inode numbers all over the groups - also in groups a later shrink removes
+        c = []; names = []; nd = 0
+        for k in range(n):
+            if k % 12 == 0: c.append('mkdir z%d_%03d' % (i, nd)); nd += 1
+            else:
+                dn = (k * 7) % nd; nm = 'z%d_%03d/e%04d%s' % (i, dn, k, 'w' * (40 + b % 150)); c.append('write /dev/null %s' % nm); names.append((dn, nm))
+        # free inodes again: every file of every third directory (all its blocks but the first end up without a live entry), whole runs of names elsewhere, and every third file
+        for j, (dn, nm) in enumerate(names):
+            if dn % 3 == 1 or j % 3 == 0 or (j // 8) % 4 == 1: c.append('rm %s' % nm)
         tools.dbg(img, c, write=True, cpu=300)
     for i, (kind, a, b) in enumerate(ops):
         if kind % NKINDS != 5 or not extent_fs: continue
